@@ -663,7 +663,7 @@ def gen_op(rng, w, stats):
             return ["ConfigEnable", OWNER, rng.choice(w.common), 8, rng.choice([1, 1000, 100000, 10 ** 7]), rng.choice([0, 0, 10, 100])]
     # pairs waiting in ActiveNoSwaps for their adder, registered or not (removed ones must be refused)
     waiting = [pid for pid in pairs if pairs[pid]["state"] == 2 and w.adders.get(pid) and pid not in reg]
-    if waiting and w.enable_cfg and rng.random() < 0.3:
+    if waiting and w.enable_cfg and rng.random() < 0.07:
         return gen_enable(rng, w, s, rng.choice(waiting), rng.random() < 0.8)
     # bootstrap: enough live registered pairs
     if len(good) < w.cfg["target"] and rng.random() < 0.93:
@@ -690,7 +690,7 @@ def gen_op(rng, w, stats):
         st = bootstrap_step(rng, w, s, rng.choice(pend_f))
         if st:
             return st
-    if roll < 0.42 and good:
+    if good and (roll < 0.42 or rng.random() < 0.18):
         return gen_multiswap(rng, w, s)
     if roll < 0.50:
         op = gen_create(rng, w, s, rng.random() < 0.35)
@@ -733,7 +733,9 @@ def gen_op(rng, w, stats):
         else:
             tok = rng.randint(1, NTOK)
         kind = rng.choice(["RSetFeeOn", "RSetFeeOn", "RSetFeeOff"])
-        if kind == "RSetFeeOff" and w.feedests.get(ad) and rng.random() < 0.8:
+        withd = [x for x in w.feedests if w.feedests[x]]
+        if kind == "RSetFeeOff" and withd and rng.random() < 0.8:
+            ad = rng.choice(withd)
             dest, tok = rng.choice(w.feedests[ad])
         return [kind, c, ad, dest, tok]
     if roll < 0.74:
